@@ -140,6 +140,9 @@ class Fn:
                 return '(%d - %s)' % ((1 << rt[1]) - 1, e), rt
             if op == '-' and rt[0] == 'i':
                 return '(- %s)' % e, rt
+            if op == '~' and rt[0] == 'i':
+                # two's complement: ~x = -x - 1
+                return '(- %s - 1)' % e, rt
             if op == '-' and rt[0] == 'f':
                 return '(- %s)' % e, rt
             if op == '!':
@@ -258,6 +261,17 @@ class Fn:
                     b = m.group(1)
                 if op == '<<': return '((%s <<< %s) %% %d)' % (a, b, M), rt
                 return '(%s >>> %s)' % (a, b), rt
+        if k == 'i' and op in ('<<', '&', '|', '^'):
+            # signed operands in their two's complement representation (what gcc/clang do on the targets the library builds for;
+            # a left shift whose result does not fit is undefined in ISO C and wraps there): compute on the w-bit pattern
+            M = 1 << w
+            ua = '(Int.toNat (%s %% %d))' % (a, M)
+            if op == '<<':
+                cnt = b if bt[0] == 'u' else '(Int.toNat %s)' % b
+                return '(CSem.toSigned %d ((%s <<< %s) %% %d))' % (w, ua, cnt, M), rt
+            ub = '(Int.toNat (%s %% %d))' % (b, M)
+            lop = {'&': '&&&', '|': '|||', '^': '^^^'}[op]
+            return '(CSem.toSigned %d (%s %s %s))' % (w, ua, lop, ub), rt
         if k == 'i':
             if op in '+-*':
                 return '(%s %s %s)' % (a, op, b), rt
